@@ -52,6 +52,8 @@ def classify(c, orig_ok):
     if c["kind"] == "load":
         if touches_sentinel(c) and not c.get("disabled"):
             return "F34-escape-placeholder-collision"
+        if c.get("disabled") and any(f.get("key") and len(f.get("obs_keys") or []) > 1 for f in c["fields"]):
+            return "F35-disabled-expansion-keeps-expanded-keys"
         return None
     if defines_injected(c):
         return "F16-injected-vars-overridden"
